@@ -16,4 +16,4 @@ class Part(PC.ProcPart):
     prop = 4
 
 
-PARTS = [Part(), IC.DeliverSpawnRace()]
+PARTS = [Part(), IC.DeliverSpawnRace(), PC.ProcSched()]
